@@ -104,6 +104,8 @@ class Pipe(object):
     def link_lost(self):
         for q in (self.i2t, self.t2i, self.act_i, self.act_t):
             q.put(None)
+        if getattr(self, 'air', None) is not None:
+            self.air.link_lost()
 
 
 def make_macs(pipe):
@@ -145,38 +147,75 @@ def make_macs(pipe):
     return ini, tgt
 
 
+class _Air(object):
+    """NFC-DEP frames in flight between the two loopback clfs.  All state changes under one lock, so
+    "both sides wait and nothing is in flight" is decided exactly: that (and only that) is when the
+    initiator's response timer expires - in simulated time, the real time spent does not matter."""
+
+    def __init__(self, pipe):
+        self.pipe = pipe
+        self.cond = threading.Condition()
+        self.q = {'i': [], 't': []}          # frames to be received by that role
+        self.waiting = {'i': False, 't': False}
+        self.lost = False
+
+    def put(self, to, frame):
+        with self.cond:
+            self.q[to].append(frame)
+            self.cond.notify_all()
+
+    def link_lost(self):
+        with self.cond:
+            self.lost = True
+            self.cond.notify_all()
+
+    def get(self, role, timeout):
+        other = 't' if role == 'i' else 'i'
+        t0 = _time.time()
+        with self.cond:
+            self.waiting[role] = True
+            self.cond.notify_all()
+            try:
+                while not self.q[role]:
+                    if timeout is not None and timeout <= 0:
+                        raise nfc.clf.TimeoutError("sim: no time left")
+                    if self.lost:
+                        _DepClock.now += max(timeout or 0, 1.0)
+                        raise nfc.clf.TimeoutError("sim: link lost")
+                    if role == 'i' and self.waiting[other] and not self.q[other]:
+                        _DepClock.now += timeout     # the initiator waited its full response time
+                        raise nfc.clf.TimeoutError("sim: no response")
+                    if _time.time() - t0 > LIMIT:
+                        self.pipe.stuck = True
+                        _DepClock.now += max(timeout or 0, 1.0)
+                        raise nfc.clf.TimeoutError("sim: peer silent")
+                    self.cond.wait(0.25)
+                return bytearray(self.q[role].pop(0))
+            finally:
+                self.waiting[role] = False
+
+
 class _LoopClf(object):
     """the `clf` of a real nfc.dep.Initiator / Target: exchange() moves one NFC-DEP frame each way"""
 
-    def __init__(self, pipe, role):
-        self.pipe = pipe
+    def __init__(self, air, role):
+        self.air = air
         self.role = role
 
-    def _recv(self, q, timeout):
-        if timeout is not None and timeout <= 0:
-            raise nfc.clf.TimeoutError("sim: no time left")
-        try:
-            return bytearray(self.pipe._get(q))
-        except nfc.clf.TimeoutError:
-            _DepClock.now += 10.0        # the only way simulated time passes
-            raise
-
     def exchange(self, data, timeout):
-        if self.role == 'i':
-            self.pipe.frames.append(('i', bytes(data)))
-            self.pipe.i2t.put(bytes(data))
-            return self._recv(self.pipe.t2i, timeout)
+        other = 't' if self.role == 'i' else 'i'
         if data is not None:
-            self.pipe.frames.append(('t', bytes(data)))
-            self.pipe.t2i.put(bytes(data))
-        return self._recv(self.pipe.i2t, timeout)
+            self.air.pipe.frames.append((self.role, bytes(data)))
+            self.air.put(other, bytes(data))
+        return self.air.get(self.role, timeout)
 
 
 def make_dep_macs(pipe, lr=254):
     """real nfc.dep objects with their real exchange()/deactivate(); only the activation (ATR exchange,
     parameter selection) is replaced: general bytes are swapped, MIU = LR - 3, DID/NAD unused"""
-    ini = nfc.dep.Initiator(clf=_LoopClf(pipe, 'i'))
-    tgt = nfc.dep.Target(clf=_LoopClf(pipe, 't'))
+    air = pipe.air = _Air(pipe)
+    ini = nfc.dep.Initiator(clf=_LoopClf(air, 'i'))
+    tgt = nfc.dep.Target(clf=_LoopClf(air, 't'))
 
     def ini_activate(target=None, **options):
         ini.did = ini.nad = None
@@ -184,7 +223,7 @@ def make_dep_macs(pipe, lr=254):
         pipe.act_i.put(bytes(options.get('gbi', b'')))
         ini.gbt = bytearray(pipe._get(pipe.act_t))
         ini.miu = lr - 3
-        ini.rwt = 0.3
+        ini.rwt = 0.01     # simulated seconds: several ATN / NAK attempts fit into an LLCP link timeout
         ini.pni = 0
         return ini.gbt
 
@@ -197,7 +236,7 @@ def make_dep_macs(pipe, lr=254):
         tgt.rwt = 0.3
         tgt.pni = None
         tgt.acm = False
-        tgt.cmd = bytearray(pipe._get(pipe.i2t))     # the first command frame is captured in activate
+        tgt.cmd = air.get('t', None)                 # the first command frame is captured in activate
         return tgt.gbi
 
     ini.activate, tgt.activate = ini_activate, tgt_activate
